@@ -1,4 +1,5 @@
 import Proofs.Lemmas.ForkAt
+import Proofs.Lemmas.UpgradeChain
 import Zrnt.Gen.GoFuns
 import Zrnt.Gen.Configs
 import Zrnt.Config.Constants
@@ -18,7 +19,7 @@ import Zrnt.Config.Constants
 The specification side is `forkAt` (`Zrnt.Config.Spec`): latest fork whose epoch is `≤ epoch`.
 -/
 namespace Zrnt.Proofs.C14
-open Zrnt Zrnt.Gen.GoFuns Zrnt.Config Zrnt.Proofs.ForkAt
+open Zrnt Zrnt.Gen.GoFuns Zrnt.Config Zrnt.Proofs.ForkAt Zrnt.Proofs.Upgrade
 
 /-- the schedule a (regenerated) `Spec` record carries -/
 def scheduleOf (s : Spec) : Schedule :=
@@ -137,6 +138,57 @@ theorem upgrade_tables :
             (.capella, .deneb, .deneb), (.deneb, .electra, .electra)] ∧
     interpUpgradeFork Gen.Configs.upgradeFork = some [.altair, .bellatrix, .capella, .deneb] := by
   decide +kernel
+
+theorem genUpgrade_eq : genUpgrade = chain5 := by unfold genUpgrade; rw [upgrade_tables.1]; rfl
+theorem genSupported_eq : genSupported = sup4 := by unfold genSupported; rw [upgrade_tables.2]; rfl
+
+/-- **State type and `state.fork` along `ProcessSlots`.** The model `processSlots` is the fork-relevant part
+of `common.ProcessSlots` (per slot: increment the slot, then `UpgradeMaybe`), instantiated with the
+regenerated `UpgradeMaybe` chain and the regenerated `Fork{…}` literals of the `UpgradeToX` functions, with
+the 64-bit wrapping product `Slot(epoch) * SLOTS_PER_EPOCH` of the source.
+For every monotone schedule (equal, adjacent, never-activated forks), started from the phase0 genesis the
+repository builds, after `n` slots the state type is `forkAt c (epoch n)` and `state.fork` is
+`(version of the preceding fork, version of forkAt, epoch of forkAt)` (phase0: `(genesis, genesis, 0)`) —
+`specState`. Hypotheses: phase0 is the right genesis fork (`ALTAIR_FORK_EPOCH ≠ 0`); the chain stays before
+Electra (`UpgradeToElectra` is unsupported in the repository and returns an error); no fork's wrapped
+64-bit boundary product falls within the first `n` slots unless it is the true product (for
+`FAR_FUTURE_EPOCH * 8` the wrapped value is `2^64 − 8`: holds for every reachable `n`). -/
+theorem state_fork_invariant (c : Schedule) (spe : UInt64) (n : Nat)
+    (hmono : c.Monotone) (hspe : spe ≠ 0) (hgen : c.altairEpoch ≠ 0) (hn : n < 2 ^ 64)
+    (hwrap : ∀ f : Fork, (c.epochOf f * spe.toNat) % 2 ^ 64 ≤ n → c.epochOf f * spe.toNat < 2 ^ 64)
+    (hpre : n / spe.toNat < c.electraEpoch.toNat) :
+    processSlots genUpgrade genSupported c spe n (genesisState c) = .ok (specState c spe n) ∧
+    (specState c spe n).ty = forkAt c (n / spe.toNat) ∧
+    (specState c spe n).cur = c.versionOf (forkAt c (n / spe.toNat)) := by
+  have hs : 0 < spe.toNat := by
+    rcases Nat.eq_zero_or_pos spe.toNat with h | h
+    · exact absurd (UInt64.toNat_inj.mp (by rw [h]; rfl)) hspe
+    · exact h
+  have hg : 0 < c.altairEpoch.toNat := by
+    rcases Nat.eq_zero_or_pos c.altairEpoch.toNat with h | h
+    · exact absurd (UInt64.toNat_inj.mp (by rw [h]; rfl)) hgen
+    · exact h
+  have hE : n < P c spe .electra := (Nat.div_lt_iff_lt_mul hs).mp hpre
+  refine ⟨?_, rfl, rfl⟩
+  rw [genUpgrade_eq, genSupported_eq, genesis_eq c spe hmono hg]
+  have := run c spe n hmono hs hg hn hwrap hE n 0 (by omega)
+  simpa using this
+
+/-- non-vacuity: altair = bellatrix at epoch 1 (equal), capella adjacent at 2, deneb at 4, electra/fulu never;
+after 37 slots (epoch 4) the chain is a Deneb state with fork (capella version, deneb version, 4) -/
+def exampleSchedule : Schedule := {
+  genesisVersion := 0xb0, altairVersion := 0xb1, bellatrixVersion := 0xb2, capellaVersion := 0xb3
+  denebVersion := 0xb4, electraVersion := 0xb5, fuluVersion := 0xb6
+  altairEpoch := 1, bellatrixEpoch := 1, capellaEpoch := 2
+  denebEpoch := 4, electraEpoch := 0xFFFFFFFFFFFFFFFF, fuluEpoch := 0xFFFFFFFFFFFFFFFF }
+
+example : exampleSchedule.Monotone ∧ exampleSchedule.altairEpoch ≠ 0 ∧
+    (∀ f : Fork, (exampleSchedule.epochOf f * 8) % 2 ^ 64 ≤ 37 → exampleSchedule.epochOf f * 8 < 2 ^ 64) ∧
+    37 / 8 < exampleSchedule.electraEpoch.toNat ∧
+    specState exampleSchedule 8 37 = { ty := .deneb, prev := 0xb3, cur := 0xb4, epoch := 4, slot := 37 } ∧
+    specState exampleSchedule 8 8 = { ty := .bellatrix, prev := 0xb1, cur := 0xb2, epoch := 1, slot := 8 } := by
+  refine ⟨by decide, by decide, ?_, by decide, by decide, by decide⟩
+  intro f; cases f <;> decide
 
 /-! ## Constants -/
 
